@@ -26,6 +26,8 @@ import (
 // c04.req   method path rawpath opaque rawquery host remoteaddr header contentLength bodyLen bodySeed
 //           targetParts targetString without upRules flags
 //   out   = method scheme urlhost path rawpath opaque rawquery reqhost header contentLength body
+//   flags = comma list: transparent, buffered (two copies of the backend + try_duration: the body is buffered),
+//           lay=<naming>:<order> (how the block is written, c04_layout.go), sib=a|b (a second proxy directive after / before)
 // c04.resp  status header announced trailer bodyLen bodySeed preHeader downRules flags downRepls
 //   out   = status header trailers body
 //
@@ -134,39 +136,41 @@ func c04TokOK(s string) bool { return !strings.ContainsAny(s, "\"\\\r\n") }
 
 var c04Transparent = []c04Entry{{"Host", []string{"{host}"}}, {"X-Real-IP", []string{"{remote}"}}, {"X-Forwarded-Proto", []string{"{scheme}"}}, {"X-Forwarded-Port", []string{"{server_port}"}}}
 
-func c04RuleLines(directive string, rules []c04Entry, flags string) (string, bool) {
-	var b strings.Builder
+// the lines of a rule set; the values of one rule (and `transparent`, which writes Host) keep their order
+func c04RuleLines(directive string, rules []c04Entry, flags string) ([]blkLine, bool) {
+	var out []blkLine
 	if strings.Contains(flags, "transparent") {
 		if len(rules) < 4 {
-			return "", false
+			return nil, false
 		}
 		for i, e := range c04Transparent {
 			if rules[i].k != e.k || len(rules[i].vv) != 1 || rules[i].vv[0] != e.vv[0] {
-				return "", false
+				return nil, false
 			}
 		}
 		rules = rules[4:]
-		b.WriteString(" transparent\n")
+		out = append(out, blkLine{directive + ":host", " transparent\n"})
 	}
 	for _, e := range rules {
 		if !c04TokOK(e.k) || e.k == "" {
-			return "", false
+			return nil, false
 		}
+		key := directive + ":" + strings.ToLower(strings.TrimLeft(e.k, "+-"))
 		for _, v := range e.vv {
 			if !c04TokOK(v) {
-				return "", false
+				return nil, false
 			}
 			if v == "" {
 				if !strings.HasPrefix(e.k, "-") {
-					return "", false
+					return nil, false
 				}
-				fmt.Fprintf(&b, " %s %s\n", directive, c04Tok(e.k))
+				out = append(out, blkLine{key, fmt.Sprintf(" %s %s\n", directive, c04Tok(e.k))})
 			} else {
-				fmt.Fprintf(&b, " %s %s %s\n", directive, c04Tok(e.k), c04Tok(v))
+				out = append(out, blkLine{key, fmt.Sprintf(" %s %s %s\n", directive, c04Tok(e.k), c04Tok(v))})
 			}
 		}
 	}
-	return b.String(), true
+	return out, true
 }
 
 // replacements (3-argument header_upstream, literal patterns): field=pat/to,pat/to;field=...
@@ -226,21 +230,22 @@ func c04Literal(s string, replacement bool) bool {
 	return true
 }
 
-func c04ReplLines(directive string, rs []c04Repl) (string, bool) {
-	var b strings.Builder
+func c04ReplLines(directive string, rs []c04Repl) ([]blkLine, bool) {
+	var out []blkLine
 	for _, r := range rs {
 		if r.field == "" || !c04TokOK(r.field) || strings.HasPrefix(r.field, "+") || strings.HasPrefix(r.field, "-") {
-			return "", false
+			return nil, false
 		}
 		for _, p := range r.pairs {
 			// literal pattern, no `$` (template expansion) in the replacement
 			if !c04Literal(p[0], false) || !c04Literal(p[1], true) {
-				return "", false
+				return nil, false
 			}
-			fmt.Fprintf(&b, " %s %s %s %s\n", directive, c04Tok(r.field), c04Tok(p[0]), c04Tok(p[1]))
+			out = append(out, blkLine{directive + "-repl:" + strings.ToLower(r.field),
+				fmt.Sprintf(" %s %s %s %s\n", directive, c04Tok(r.field), c04Tok(p[0]), c04Tok(p[1]))})
 		}
 	}
-	return b.String(), true
+	return out, true
 }
 
 // the Authorization value the proxy makes from the credentials of a backend URL ("-" = none)
@@ -285,6 +290,65 @@ func (t *c04Transport) RoundTrip(req *http.Request) (*http.Response, error) {
 	return t.respond(req), nil
 }
 
+// coverage tags of a layout: how the backends are named, whether the lines are in another order than the default
+func c04LayoutTags(lay string, nLines int) []string {
+	if lay == "" {
+		return nil
+	}
+	direct, order, _ := blkParseLayout(lay)
+	var tags []string
+	switch {
+	case direct == 0:
+		tags = append(tags, "backends-on-upstream-lines")
+	case direct > 0:
+		tags = append(tags, "backends-mixed")
+	}
+	if order != 0 && nLines > 0 {
+		tags = append(tags, "block-lines-reordered")
+	}
+	return tags
+}
+
+// A second proxy directive of the same site, written before (sib=b) or after (sib=a) the block of the case.  It serves
+// another path and has settings of its own for everything the case's block may set: none of it may reach the case's block.
+const c04Sibling = "proxy /sibling-zz http://sibling.test:9/sib?s=1 {\n without /sibling-zz\n transparent\n header_upstream X-Sibling s\n header_upstream -Accept\n" +
+	" header_upstream Cookie a b\n header_downstream X-Sibling s\n header_downstream -Etag\n header_downstream Location internal sibling\n try_duration 2s\n max_conns 3\n}\n"
+
+// c04Upstreams builds the site's proxy directives through the real setup code; the case's block is the one for "/".
+func c04Upstreams(cfg, sib string, tr http.RoundTripper) ([]proxy.Upstream, func(), string) {
+	switch sib {
+	case "":
+	case "a":
+		cfg = cfg + c04Sibling
+	case "b":
+		cfg = c04Sibling + cfg
+	default:
+		return nil, nil, "bad-case:sibling"
+	}
+	ups, err := proxy.NewStaticUpstreams(casketfile.NewDispenser("Testfile", strings.NewReader(cfg)), "")
+	stop := func() {
+		for _, u := range ups {
+			u.Stop()
+		}
+	}
+	want := 1
+	if sib != "" {
+		want = 2
+	}
+	if err != nil || len(ups) != want {
+		stop()
+		return nil, nil, fmt.Sprintf("setup-error:%v", err)
+	}
+	if tr != nil {
+		for _, u := range ups {
+			for _, h := range proxy.VerifHosts(u) {
+				h.ReverseProxy.Transport = tr
+			}
+		}
+	}
+	return ups, stop, ""
+}
+
 func c04Upstream(cfg string, tr http.RoundTripper) (proxy.Upstream, string) {
 	ups, err := proxy.NewStaticUpstreams(casketfile.NewDispenser("Testfile", strings.NewReader(cfg)), "")
 	if err != nil || len(ups) != 1 {
@@ -296,6 +360,25 @@ func c04Upstream(cfg string, tr http.RoundTripper) (proxy.Upstream, string) {
 		}
 	}
 	return ups[0], ""
+}
+
+// the upstream block of a c04.req case: its backends (two copies of the target when the body has to be buffered)
+// and its lines in the stream's fixed order
+func c04ReqBlock(target, without string, rules []c04Entry, flags string, replLines []blkLine) ([]string, []blkLine, bool) {
+	lines, ok := c04RuleLines("header_upstream", rules, flags)
+	if !ok {
+		return nil, nil, false
+	}
+	lines = append(lines, replLines...)
+	if without != "" {
+		lines = append(lines, blkLine{"", " without " + c04Tok(without) + "\n"})
+	}
+	backends := []string{target}
+	if strings.Contains(flags, "buffered") {
+		backends = append(backends, target)
+		lines = append(lines, blkLine{"", " try_duration 1s\n"})
+	}
+	return backends, lines, true
 }
 
 func c04ReqEval(f []string) (string, []string) {
@@ -326,24 +409,14 @@ func c04ReqEval(f []string) (string, []string) {
 	if err != nil || c04URLParts(tu) != f[11] || c04Cred(tu) != f[16] || !c04TokOK(targetStr) || !c04TokOK(without) {
 		return "bad-case:target", nil
 	}
-	ruleLines, ok := c04RuleLines("header_upstream", rules, flags)
+	backends, lines, ok := c04ReqBlock(targetStr, without, rules, flags, replLines)
 	if !ok {
 		return "bad-case:rules", nil
 	}
-	ruleLines += replLines
-	var cfg strings.Builder
-	cfg.WriteString("proxy / " + targetStr)
-	if strings.Contains(flags, "buffered") {
-		cfg.WriteString(" " + targetStr)
+	cfg, ok := blkWrite("proxy /", backends, lines, blkFlag(flags, "lay"))
+	if !ok {
+		return "bad-case:layout", nil
 	}
-	cfg.WriteString(" {\n" + ruleLines)
-	if without != "" {
-		cfg.WriteString(" without " + c04Tok(without) + "\n")
-	}
-	if strings.Contains(flags, "buffered") {
-		cfg.WriteString(" try_duration 1s\n")
-	}
-	cfg.WriteString("}\n")
 
 	body := c04Body(bodyLen, bodySeed)
 	seen := &c04Seen{}
@@ -351,11 +424,15 @@ func c04ReqEval(f []string) (string, []string) {
 		return &http.Response{StatusCode: 200, Proto: "HTTP/1.1", ProtoMajor: 1, ProtoMinor: 1, Header: http.Header{},
 			Body: io.NopCloser(strings.NewReader("ok")), ContentLength: 2, Request: req}
 	}}
-	up, msg := c04Upstream(cfg.String(), tr)
-	if up == nil {
+	sib := blkFlag(flags, "sib")
+	if sib != "" && strings.HasPrefix(strings.ToLower(path), "/sibling-zz") {
+		return "bad-case:the request is for the sibling block", nil
+	}
+	ups, stop, msg := c04Upstreams(cfg, sib, tr)
+	if ups == nil {
 		return msg, nil
 	}
-	defer up.Stop()
+	defer stop()
 
 	req := &http.Request{Method: method, URL: &url.URL{Path: path, RawPath: rawpath, Opaque: opaque, RawQuery: rawquery},
 		Proto: "HTTP/1.1", ProtoMajor: 1, ProtoMinor: 1, Header: c04ToHeader(hdrEntries), Host: host, RemoteAddr: remote,
@@ -369,7 +446,7 @@ func c04ReqEval(f []string) (string, []string) {
 		req.TransferEncoding = []string{"chunked"}
 	}
 	req = req.WithContext(context.Background())
-	p := proxy.Proxy{Next: httpserver.EmptyNext, Upstreams: []proxy.Upstream{up}}
+	p := proxy.Proxy{Next: httpserver.EmptyNext, Upstreams: ups}
 	rec := httptest.NewRecorder()
 	status, err := p.ServeHTTP(rec, req)
 	if seen.calls != 1 || seen.req == nil {
@@ -426,6 +503,10 @@ func c04ReqEval(f []string) (string, []string) {
 	}
 	if strings.Contains(flags, "buffered") {
 		tags = append(tags, "buffered-body")
+	}
+	tags = append(tags, c04LayoutTags(blkFlag(flags, "lay"), len(lines))...)
+	if sib != "" {
+		tags = append(tags, "second-proxy-directive")
 	}
 	if len(tags) == 0 {
 		tags = append(tags, "trivial-plain")
@@ -487,7 +568,10 @@ func c04RespEval(f []string) (string, []string) {
 	if !rok {
 		return "bad-case:repls", nil
 	}
-	cfg := "proxy / http://backend.test:8080 {\n" + ruleLines + replLines + "}\n"
+	cfg, ok := blkWrite("proxy /", []string{"http://backend.test:8080"}, append(ruleLines, replLines...), blkFlag(f[8], "lay"))
+	if !ok {
+		return "bad-case:layout", nil
+	}
 	body := c04Body(bodyLen, bodySeed)
 	seen := &c04Seen{}
 	tr := &c04Transport{seen: seen, respond: func(req *http.Request) *http.Response {
@@ -502,14 +586,14 @@ func c04RespEval(f []string) (string, []string) {
 		res.Body = &c04TrailerBody{r: bytes.NewReader(body), res: res, final: final}
 		return res
 	}}
-	up, msg := c04Upstream(cfg, tr)
-	if up == nil {
+	ups, stop, msg := c04Upstreams(cfg, blkFlag(f[8], "sib"), tr)
+	if ups == nil {
 		return msg, nil
 	}
-	defer up.Stop()
+	defer stop()
 	req := httptest.NewRequest("GET", "http://front.test/x", nil)
 	req.RemoteAddr = "192.0.2.7:4711"
-	p := proxy.Proxy{Next: httpserver.EmptyNext, Upstreams: []proxy.Upstream{up}}
+	p := proxy.Proxy{Next: httpserver.EmptyNext, Upstreams: ups}
 	rec := httptest.NewRecorder()
 	for _, e := range pre {
 		rec.Header()[e.k] = append([]string(nil), e.vv...)
@@ -548,6 +632,10 @@ func c04RespEval(f []string) (string, []string) {
 		if len(rules) == 0 {
 			tags = append(tags, "only-downstream-replacements")
 		}
+	}
+	tags = append(tags, c04LayoutTags(blkFlag(f[8], "lay"), len(ruleLines)+len(replLines))...)
+	if blkFlag(f[8], "sib") != "" {
+		tags = append(tags, "second-proxy-directive")
 	}
 	if len(pre) > 0 {
 		tags = append(tags, "pre-existing-headers")
@@ -762,6 +850,22 @@ func c04EmitReqRaw(g *hx.Gen, method, p, rp, opaque, q, host, remote string, hdr
 		c04EncEntries(rules), flags, c04Cred(tu), c04EncRepls(repls))
 }
 
+// c04ReqLayouts: the layouts of the case's upstream block for the given namings (every distinct order of a block of
+// up to four lines, `sample` orders beyond), leaving out the default spelling
+func c04ReqLayouts(r *hx.Rng, target, without string, rules []c04Entry, flags string, repls []c04Repl, namings []string, sample int) []string {
+	replLines, ok := c04ReplLines("header_upstream", repls)
+	if !ok {
+		return nil
+	}
+	backends, lines, ok := c04ReqBlock(target, without, rules, flags, replLines)
+	if !ok {
+		return nil
+	}
+	return blkLayouts(r, backends, lines, namings, sample)
+}
+
+func c04RandLayout(r *hx.Rng, nBackends int) string { return blkRandLayout(r, nBackends) }
+
 var c04ReplPairs = [][2]string{{"a", "b"}, {"e", "ee"}, {"x", "x-p"}, {"text", "TEXT"}, {"keep", "k"}, {"1", "one two"}, {"/", "//"}, {"b", "a"}}
 
 // replacement entries on pairwise distinct fields
@@ -807,6 +911,16 @@ func c04ReqGen(g *hx.Gen) {
 					}
 					rt = strings.ReplaceAll(rt, " ", "%20")
 					c04EmitReq(g, "GET", rt, "front.test", "192.0.2.1:4000", plain, 0, 0, 0, target, wo, nil, "")
+					// the same block written with an `upstream` line, before and after `without`
+					if qi <= 1 {
+						for _, lay := range c04ReqLayouts(r, target, wo, nil, "", nil, []string{"u"}, 2) {
+							c04EmitReq(g, "GET", rt, "front.test", "192.0.2.1:4000", plain, 0, 0, 0, target, wo, nil, "lay="+lay)
+						}
+					}
+					// a second proxy directive in the site, before / after this one
+					if qi == 0 {
+						c04EmitReq(g, "GET", rt, "front.test", "192.0.2.1:4000", plain, 0, 0, 0, target, wo, nil, "sib="+[]string{"a", "b"}[(len(base)+len(rp)+len(wo))%2])
+					}
 				}
 			}
 		}
@@ -864,6 +978,11 @@ func c04ReqGen(g *hx.Gen) {
 						cl = -1
 					}
 					c04EmitReq(g, m, "/upload", "front.test", "192.0.2.1:4000", plain, cl, n, uint64(n)+7, "http://backend.test:8080/base", "", nil, fl)
+					if m == "POST" && n <= 32*1024 {
+						for _, lay := range c04ReqLayouts(r, "http://backend.test:8080/base", "/up", nil, fl, nil, []string{"u", "m1"}, 2) {
+							c04EmitReq(g, m, "/upload", "front.test", "192.0.2.1:4000", plain, cl, n, uint64(n)+7, "http://backend.test:8080/base", "/up", nil, blkWithFlag(fl, "lay", lay))
+						}
+					}
 				}
 			}
 		}
@@ -873,7 +992,13 @@ func c04ReqGen(g *hx.Gen) {
 	for _, host := range []string{"front.test", "front.test:8443", "[::1]:2015", ""} {
 		for _, ra := range []string{"192.0.2.1:4000", "[2001:db8::1]:4000", "weird"} {
 			c04EmitReq(g, "GET", "/x", host, ra, plain, 0, 0, 0, "http://backend.test:8080", "", tr, "transparent")
-			c04EmitReq(g, "GET", "/x", host, ra, plain, 0, 0, 0, "http://backend.test:8080", "", append(append([]c04Entry{}, tr...), c04Entry{"+X-Tag", []string{"t"}}), "transparent")
+			trTag := append(append([]c04Entry{}, tr...), c04Entry{"+X-Tag", []string{"t"}})
+			c04EmitReq(g, "GET", "/x", host, ra, plain, 0, 0, 0, "http://backend.test:8080", "", trTag, "transparent")
+			if host == "front.test:8443" {
+				for _, lay := range c04ReqLayouts(r, "http://backend.test:8080", "/x", trTag, "transparent", nil, []string{"d", "u"}, 2) {
+					c04EmitReq(g, "GET", "/x/y", host, ra, plain, 0, 0, 0, "http://backend.test:8080", "/x", trTag, "transparent,lay="+lay)
+				}
+			}
 		}
 	}
 	// 5b. upstream credentials x what the client sent as Authorization; replacements x value shapes
@@ -885,6 +1010,9 @@ func c04ReqGen(g *hx.Gen) {
 			}
 			c04EmitReq(g, "GET", "/x", "front.test", "192.0.2.1:4000", es, 0, 0, 0, "http://"+cred+"backend.test:8080", "", nil, "")
 			c04EmitReq(g, "GET", "/x", "front.test", "192.0.2.1:4000", es, 0, 0, 0, "http://"+cred+"backend.test:8080", "", []c04Entry{{"-Authorization", []string{""}}}, "")
+			for _, lay := range c04ReqLayouts(r, "http://"+cred+"backend.test:8080/b", "/x", []c04Entry{{"-Authorization", []string{""}}}, "", nil, []string{"u"}, 2) {
+				c04EmitReq(g, "GET", "/x/y", "front.test", "192.0.2.1:4000", es, 0, 0, 0, "http://"+cred+"backend.test:8080/b", "/x", []c04Entry{{"-Authorization", []string{""}}}, "lay="+lay)
+			}
 		}
 	}
 	for _, vals := range [][]string{nil, {"edge"}, {"", "edge"}, {"edge", "second"}, {"eee"}, {"none"}} {
@@ -895,6 +1023,12 @@ func c04ReqGen(g *hx.Gen) {
 					es = append(es, c04Entry{"X-Via", vals})
 				}
 				c04EmitReq(g, "GET", "/x", "front.test", "192.0.2.1:4000", es, 0, 0, 0, "http://backend.test:8080", "", rule, "", c04Repl{"x-via", ps})
+				if len(vals) == 2 {
+					// rule, replacements (which keep their order), without, upstream line: every order up to four lines
+					for _, lay := range c04ReqLayouts(r, "http://backend.test:8080", "/x", rule, "", []c04Repl{{"x-via", ps}}, []string{"d", "u"}, 3) {
+						c04EmitReq(g, "GET", "/x/y", "front.test", "192.0.2.1:4000", es, 0, 0, 0, "http://backend.test:8080", "/x", rule, "lay="+lay, c04Repl{"x-via", ps})
+					}
+				}
 			}
 		}
 	}
@@ -942,6 +1076,16 @@ func c04ReqGen(g *hx.Gen) {
 		if r.Chance(1, 3) {
 			repls = c04RandRepls(r, names)
 		}
+		if r.Chance(1, 2) {
+			nb := 1
+			if fl == "buffered" {
+				nb = 2
+			}
+			fl = blkWithFlag(fl, "lay", c04RandLayout(r, nb))
+		}
+		if r.Chance(1, 4) {
+			fl = blkWithFlag(fl, "sib", hx.Pick(r, []string{"a", "b"}))
+		}
 		c04EmitReq(g, hx.Pick(r, c04Methods), rt, hx.Pick(r, []string{"front.test", "front.test:8080", "[::1]:2015"}), hx.Pick(r, c04Remotes[:4]),
 			hdr, cl, n, r.U64()%1000, target, hx.Pick(r, c04Withouts), c04RandRules(r, names), fl, repls...)
 	}
@@ -969,20 +1113,25 @@ func c04ReqGen(g *hx.Gen) {
 			op = rb(6)
 		}
 		hdr := c04RandHeader(r, c04E2ENames)
+		fl := ""
+		if r.Chance(1, 2) {
+			fl = "lay=" + c04RandLayout(r, 1)
+		}
 		c04EmitReqRaw(g, hx.Pick(r, c04Methods), p, rp, op, rb(5), "front.test", hx.Pick(r, c04Remotes), hdr, 0, 0, 0,
-			"http://backend.test:8080"+hx.Pick(r, c04Bases), hx.Pick(r, c04Withouts), nil, "")
+			"http://backend.test:8080"+hx.Pick(r, c04Bases), hx.Pick(r, c04Withouts), nil, fl)
 	}
 }
 
 func c04RespGen(g *hx.Gen) {
 	r := g.Rng
+	respFlags := "" // the layout of the block of the cases emitted next
 	emit := func(status int, hdr []c04Entry, announced []string, final []c04Entry, bodyLen int, seed uint64, pre, rules []c04Entry, repls ...c04Repl) {
 		enc := make([]string, len(announced))
 		for i, a := range announced {
 			enc[i] = hx.HS(a)
 		}
 		g.Case(strconv.Itoa(status), c04EncEntries(hdr), strings.Join(enc, ","), c04EncEntries(final), strconv.Itoa(bodyLen),
-			strconv.FormatUint(seed, 10), c04EncEntries(pre), c04EncEntries(rules), "", c04EncRepls(repls))
+			strconv.FormatUint(seed, 10), c04EncEntries(pre), c04EncEntries(rules), respFlags, c04EncRepls(repls))
 	}
 	statuses := []int{200, 201, 204, 206, 301, 302, 304, 400, 401, 403, 404, 418, 429, 500, 502, 503, 599}
 	base := []c04Entry{{"Content-Type", []string{"text/plain"}}, {"X-B", []string{"b1", "b2"}}, {"Set-Cookie", []string{"a=1", "b=2"}}}
@@ -1045,6 +1194,19 @@ func c04RespGen(g *hx.Gen) {
 						es = append(es, c04Entry{"Location", loc})
 					}
 					emit(302, es, nil, nil, 3, 4, pre, ps, rs...)
+					// the same block with its lines in every order (up to four lines; sampled beyond), the backend on the
+					// directive line or on an `upstream` line
+					if pre == nil && len(loc) == 1 {
+						ruleLines, ok1 := c04RuleLines("header_downstream", ps, "")
+						replLines, ok2 := c04ReplLines("header_downstream", rs)
+						if ok1 && ok2 {
+							for _, lay := range blkLayouts(r, []string{"http://backend.test:8080"}, append(ruleLines, replLines...), []string{"d", "u"}, 3) {
+								respFlags = "lay=" + lay
+								emit(302, es, nil, nil, 3, 4, pre, ps, rs...)
+							}
+							respFlags = ""
+						}
+					}
 				}
 			}
 		}
@@ -1120,6 +1282,13 @@ func c04RespGen(g *hx.Gen) {
 		var rules []c04Entry
 		if !r.Chance(1, 4) {
 			rules = c04RandRules(r, append(append([]string{}, c04RespNames...), "Connection", "Keep-Alive"))
+		}
+		respFlags = ""
+		if r.Chance(1, 3) {
+			respFlags = "lay=" + c04RandLayout(r, 1)
+		}
+		if r.Chance(1, 4) {
+			respFlags = blkWithFlag(respFlags, "sib", hx.Pick(r, []string{"a", "b"}))
 		}
 		emit(hx.Pick(r, statuses), hdr, announced, final, n, r.U64()%1000, pre, rules, repls...)
 	}
